@@ -287,9 +287,13 @@ class GuardStates:
 
     LIMIT = 4000
 
-    def __init__(self, cfg: CFG, call_kill: Callable[[Node], Set[str]] = None, edge_filter: Callable[[Edge], bool] = None, focus=None):
+    def __init__(self, cfg: CFG, call_kill: Callable[[Node], Set[str]] = None, edge_filter: Callable[[Edge], bool] = None, focus=None,
+                 marks: Callable[[Edge], Optional[str]] = None):
         self.cfg = cfg
         self.edge_filter = edge_filter
+        # marks(e) -> name: a ghost fact (name, True) is added to every state that crosses edge e and is never killed -
+        # "this path went through e", combined with the ordinary facts (so that infeasible continuations are pruned)
+        self.marks = marks
         # focus: AST nodes the caller will ask about.  Only facts that read an access path also read by a test enclosing
         # (or sharing the innermost loop with) a focus node are tracked - a slice that keeps the disjunctive state small in
         # long functions (run()) without losing any fact such a query can use.
@@ -333,6 +337,19 @@ class GuardStates:
     def _tracked(self, cond: ast.expr) -> bool:
         return self.relevant is None or bool(access_paths(cond) & self.relevant)
 
+    def _const_assign_facts(self, node: Node) -> List[Fact]:
+        cf = self._const_assign_fact(node)
+        if cf is None:
+            return []
+        out = [cf]
+        # `x = "text"` / `x = 3` / `x = True`: x is not None either
+        if cf[1] and " == " in cf[0]:
+            t = cf[0].split(" == ")[0]
+            out.append(self._fact(ast.parse(f"{t} is None", mode="eval").body, False))
+        elif " is None" not in cf[0]:
+            out.append(self._fact(ast.parse(f"{cf[0]} is None", mode="eval").body, False))
+        return out
+
     def _const_assign_fact(self, node: Node) -> Optional[Fact]:
         """`x = None` / `x = 0` / `x = True` leaves a fact about x (value known after the store)."""
         a = node.ast
@@ -354,6 +371,28 @@ class GuardStates:
         if isinstance(v.value, (int, str)):
             return self._fact(ast.parse(f"{_path(t)} == {v.value!r}", mode="eval").body, True)
         return None
+
+    _PURE_FUNCS = ("isinstance", "len", "hasattr", "callable", "bool", "issubclass")
+
+    def _flag_assign(self, node: Node):
+        """`flag = <side-effect free condition>` (a comparison / and / or / not over names, attributes, constants and the
+        pure builtins): afterwards flag and the condition have the same truth value, so the state is split in two - the
+        correlation a later `if flag:` needs (the merge-duplicated-branches-with-a-flag refactor)."""
+        a = node.ast
+        if node.kind != "stmt" or not isinstance(a, ast.Assign) or len(a.targets) != 1 or not isinstance(a.targets[0], ast.Name):
+            return None
+        v = a.value
+        if not isinstance(v, (ast.Compare, ast.BoolOp)) and not (isinstance(v, ast.UnaryOp) and isinstance(v.op, ast.Not)):
+            return None
+        for x in ast.walk(v):
+            if isinstance(x, ast.Call):
+                if not (isinstance(x.func, ast.Name) and x.func.id in self._PURE_FUNCS):
+                    return None
+            elif isinstance(x, (ast.NamedExpr, ast.Await, ast.Yield, ast.YieldFrom, ast.Lambda, ast.ListComp, ast.SetComp, ast.DictComp, ast.GeneratorExp, ast.Subscript)):
+                return None
+        if a.targets[0].id in access_paths(v):
+            return None
+        return a.targets[0], v
 
     def _kill(self, facts: FrozenSet[Fact], stores: Set[str]) -> FrozenSet[Fact]:
         if not stores or not facts:
@@ -397,11 +436,26 @@ class GuardStates:
                     # happened -> kill as well (sound both ways: fewer facts)
                     f2 = self._kill(facts, st)
                     if e.cond is not None and self._tracked(e.cond):
-                        f2 = f2 | {self._fact(e.cond, e.pol)}
+                        fc = self._fact(e.cond, e.pol)
+                        if (fc[0], not fc[1]) in f2:
+                            continue  # the opposite is known on these paths: the branch is not taken
+                        f2 = f2 | {fc}
+                    if self.marks is not None:
+                        mk = self.marks(e)
+                        if mk:
+                            if mk not in self.exprs:
+                                self.exprs[mk] = ast.Name(id=mk, ctx=ast.Load())
+                                self._reads[mk] = set()
+                            f2 = f2 | {(mk, True)}
                     if e.kind != "exc":
-                        cf = self._const_assign_fact(node)
-                        if cf is not None and self._tracked(self.exprs[cf[0]]):
-                            f2 = f2 | {cf}
+                        for cf in self._const_assign_facts(node):
+                            if self._tracked(self.exprs[cf[0]]):
+                                f2 = f2 | {cf}
+                        fa = self._flag_assign(node)
+                        if fa is not None and self._tracked(fa[0]):
+                            outs.add(f2 | {self._fact(fa[0], True), self._fact(fa[1], True)})
+                            outs.add(f2 | {self._fact(fa[0], False), self._fact(fa[1], False)})
+                            continue
                     outs.add(f2)
                 tgt = self.state[e.dst]
                 new = outs - tgt
@@ -456,14 +510,22 @@ class GuardStates:
         for facts in self.state[e.src]:
             f2 = self._kill(facts, st)
             if e.cond is not None and self._tracked(e.cond):
-                f2 = f2 | {self._fact(e.cond, e.pol)}
+                fc = self._fact(e.cond, e.pol)
+                if (fc[0], not fc[1]) in f2:
+                    continue
+                f2 = f2 | {fc}
             if e.kind != "exc":
-                cf = self._const_assign_fact(node)
-                if cf is not None and self._tracked(self.exprs[cf[0]]):
-                    f2 = f2 | {cf}
+                for cf in self._const_assign_facts(node):
+                    if self._tracked(self.exprs[cf[0]]):
+                        f2 = f2 | {cf}
+                fa = self._flag_assign(node)
+                if fa is not None and self._tracked(fa[0]):
+                    out.append([(self.exprs[t], pol) for (t, pol) in sorted(f2 | {self._fact(fa[0], True), self._fact(fa[1], True)})])
+                    out.append([(self.exprs[t], pol) for (t, pol) in sorted(f2 | {self._fact(fa[0], False), self._fact(fa[1], False)})])
+                    continue
             out.append([(self.exprs[t], pol) for (t, pol) in sorted(f2)])
         return out
 
 
-def guard_states(cfg: CFG, call_kill=None, edge_filter=None, focus=None) -> GuardStates:
-    return GuardStates(cfg, call_kill, edge_filter, focus)
+def guard_states(cfg: CFG, call_kill=None, edge_filter=None, focus=None, marks=None) -> GuardStates:
+    return GuardStates(cfg, call_kill, edge_filter, focus, marks)
